@@ -169,6 +169,7 @@ func verifRegionCount() uint32 { return uint32(2 + verifrt.Choice("regions", ver
 
 // Acceptance of region tables, key derivation, no input-sized allocation.
 func VerifC10_Accept() {
+	verifrt.NativeUnsupported("AES is replaced by engine-injected cipher stubs")
 	im := verifNewEncImage(false, 0)
 	switch verifrt.Choice("countclass", 4) {
 	case 0:
@@ -208,6 +209,7 @@ func verifOpenEnc(im *verifEncImage, clear bool) *EncryptedISO {
 }
 
 func VerifC10_ReadAt() {
+	verifrt.NativeUnsupported("AES is replaced by engine-injected cipher stubs")
 	im := verifNewEncImage(false, 0)
 	clear := verifrt.Bool("clear")
 	e := verifOpenEnc(im, clear)
@@ -235,6 +237,7 @@ func VerifC10_ReadAt() {
 }
 
 func VerifC10_Read() {
+	verifrt.NativeUnsupported("AES is replaced by engine-injected cipher stubs")
 	im := verifNewEncImage(false, verifrt.Bound("C10.shortreads", 1, 1))
 	clear := verifrt.Bool("clear")
 	e := verifOpenEnc(im, clear)
@@ -263,6 +266,7 @@ func VerifC10_Read() {
 
 // Relative seeks keep the cursor invariant.
 func VerifC10_Seek() {
+	verifrt.NativeUnsupported("AES is replaced by engine-injected cipher stubs")
 	im := verifNewEncImage(false, 0)
 	e := verifOpenEnc(im, false)
 	cur := verifrt.Int64("cursor")
@@ -283,6 +287,7 @@ func VerifC10_Seek() {
 
 // The three wrappers can never be written through.
 func VerifC10_NoWrite() {
+	verifrt.NativeUnsupported("AES is replaced by engine-injected cipher stubs")
 	im := verifNewEncImage(false, 0)
 	e := verifOpenEnc(im, false)
 	p := verifrt.Bytes("payload", 4)
